@@ -44,3 +44,19 @@ Fixpoint run_cache (dflt : Z) (s : cstate) (ops : list cop) : list (option Z * b
       let c := get_or_compute dflt s (op_now o) (op_key o) (op_cb o) (op_expire o) in
       (cr_val c, cr_called c) :: run_cache dflt (cr_state c) r
   end.
+
+(** ---- specification clause C18 "without re-querying", evaluated by the correspondence on the implementation's own
+    observations (Run/Pol.v) and proved of the model (Proofs/CacheNoRequery.v) *)
+(** "without re-querying": the callback ran although an earlier call for the same key stored a success whose
+    lifetime [op_expire] (positive) has not yet run out *)
+Definition requeried_early (hist : list (cop * (option Z * bool))) (o : cop) (r : option Z * bool) : bool :=
+  snd r && existsb (fun h => (op_key (fst h) =? op_key o) && snd (snd h)
+                             && match fst (snd h) with Some _ => true | None => false end
+                             && (0 <? op_expire (fst h)) && (op_now o <? op_now (fst h) + op_expire (fst h))) hist.
+
+Fixpoint cache_norequery (hist : list (cop * (option Z * bool))) (ops : list cop) (res : list (option Z * bool)) : bool :=
+  match ops, res with
+  | o :: ro, r :: rr => negb (requeried_early hist o r) && cache_norequery ((o, r) :: hist) ro rr
+  | _, _ => true
+  end.
+
